@@ -327,6 +327,7 @@ func main() {
 	// (c) context binding of proof-carrying messages (binding.go)
 	if vkit.Want("binding") {
 		contextBinding(res, &n)
+		commitmentCopied(res, &n)
 	}
 	// (a) adversarial identifier sets with equal concatenations / shared prefixes
 	advPairs := [][2][]string{{{"a", "bc", "x"}, {"ab", "c", "x"}}, {{"a", "bc"}, {"ab", "c"}}, {{"a", "b", "c"}, {"ab", "c"}}, {{"a", "ab", "abc"}, {"a", "aab", "bc"}}}
@@ -412,6 +413,28 @@ func main() {
 			okBA := replayPair(base, A, pclass, ta == tb, res)
 			res.Sample(map[string]interface{}{"session_B": base.String(), "session_A": A.String(), "differs_in": name, "tags_differ": ta != tb,
 				"all_messages_of_A_at_all_points_of_B_are_no_ops": okAB, "and_vice_versa": okBA})
+		}
+		// two LONG messages that agree on their first 32 bytes (a tag that only takes the part of the message a
+		// scalar is made of would not tell them apart)
+		if base.Msg != "" {
+			n++
+			if vkit.Mine(n) {
+				A, B := base, base
+				A.Msg = strings.Repeat("m", 32) + "AAAAAAAA"
+				B.Msg = strings.Repeat("m", 32) + "BBBBBBBB"
+				ta, _, ea := firstTag(A)
+				tb, _, eb := firstTag(B)
+				res.Case(fmt.Sprintf("tag|%s|message=long-common-32-byte-prefix", base.Proto))
+				if ea != nil || eb != nil {
+					res.Hard(fmt.Sprintf("tag: cannot start %v / %v: %v %v", A, B, ea, eb))
+				} else if tagMustDiffer(base.Proto, "message") {
+					if ta == tb {
+						res.Violate("same-tag|"+base.Proto+"|message", fmt.Sprintf("sessions whose 40-byte messages differ only after byte 32 have the same tag: %v vs %v (protocol %q, ssid %s)", A, B, ta.Protocol, ta.SSID),
+							map[string]interface{}{"a": A, "b": B})
+					}
+					replayPair(A, B, "message", ta == tb, res)
+				}
+			}
 		}
 		// cross-protocol pairs with identical other parameters
 		for _, other := range bases() {
